@@ -126,6 +126,7 @@ LLVMFuzzerTestOneInput(const uint8_t *data, size_t size)
         break;
       }
       case HOLD: op.arg = static_cast<uint32_t>(b); break;
+      case S_MANY: op.arg = 2U + 260U * static_cast<uint32_t>(b); break;
       default: break;
     }
     if (c.threads[t].ops.size() < 12) c.threads[t].ops.push_back(op);
